@@ -203,7 +203,7 @@ func (w *wd) setup() bool {
 	}
 	w.dirty = true
 	w.gov(&treasurytypes.CommunityFundFeeProposal{Title: "cf", Description: "cf", Fee: "0.01"}, "gov community fee")
-	w.gov(&treasurytypes.SecurityFeeProposal{Title: "sf", Description: "sf", Fee: "0.01"}, "gov security fee")
+	w.gov(&treasurytypes.SecurityFeeProposal{Title: "sf", Description: "sf", Fee: "0.03"}, "gov security fee")
 	var deps []evmtypes.SetSmartContractDeployersProposal_Deployer
 	for _, ref := range w.refs {
 		deps = append(deps, evmtypes.SetSmartContractDeployersProposal_Deployer{ChainReferenceID: ref, ContractAddress: deployerAddr})
@@ -365,7 +365,22 @@ func (w *wd) sourceValset(ref string) (uint64, bool) {
 		return 0, false
 	}
 	w.rec.Count("ops/valset_published", 1)
-	return w.findMsg(ref, actValset)
+	id, ok := w.findMsg(ref, actValset)
+	if ok && w.r.Intn(3) == 0 {
+		// the stake moves again before the update is delivered: the message is now about a
+		// snapshot that is no longer the current one (the keep-warm rule keeps the old message)
+		u := w.users[1]
+		v := w.vals[w.r.Intn(len(w.vals))]
+		res, okd := w.tx(u, "delegate", &stakingtypes.MsgDelegate{DelegatorAddress: u.Bech, ValidatorAddress: v.ValBech(), Amount: sdk.NewInt64Coin(chain.Denom, int64(1_000_000*(1+w.r.Intn(4))))})
+		if okd && res.OK() {
+			w.dirty = true
+			if s, err := world.BuildSnapshot(w.c); err == nil && s != nil {
+				w.rec.Count("ops/snapshot_superseded_before_delivery", 1)
+			}
+		}
+		id, ok = w.findMsg(ref, actValset)
+	}
+	return id, ok
 }
 
 // republish makes the chain queue a second UpdateValset message for a snapshot that is already
